@@ -520,6 +520,19 @@ uint64_t rt_next_rng_seed() {
 }
 bool rt_rng_degenerate() { return g.active && g.cfg.rng_degenerate != 0; }
 
+// ---- environment decisions ----------------------------------------------------
+uint32_t rt_choice(uint32_t n, uint32_t permille) {
+    if (!g.active || n <= 1) return 0;
+    uint32_t gen = 0;
+    if (!g.replaying && g.rf.permille(permille)) gen = 1 + g.rf.below(n - 1);
+    return take(n, gen);
+}
+void rt_note(uint32_t op, uint32_t v) { if (g.active) { g.heartbeat++; mix(op, v); } }
+void rt_count_alloc(bool recycled, bool quarantined) {
+    if (recycled) g.st.f_alloc_recycle++;
+    if (quarantined) g.st.f_alloc_quarantined++;
+}
+
 // ---- history / ledgers ------------------------------------------------------
 uint64_t rt_event(uint32_t kind, int64_t a, int64_t b) {
     g.heartbeat++;
